@@ -142,6 +142,17 @@ NormaliseOK(high, sRel, vRel, lowAfter, hasV) ==
 \* exact model: r = x(kG) as a scalar, s = (z + r d)/k, recovery id = y parity of kG
 ESignS(d, k, z) == Div(Add(z, Mul(X(k), d)), k)
 LowS(s) == s <= Half
+\* device W (small window around the middle of the range): for s = Half + off, lowness and negation as functions of off alone;
+\* the ASSUME makes TLC check that these agree with LowS / Neg for every s of the model field (so the same two operators decide the
+\* production-curve lines of SigVerifyTrace, where only off is logged)
+LowAt(off) == off <= 0
+NegAt(off, low) == IF low THEN off ELSE 1 - off
+ASSUME BoundaryWindow == \A off \in (1 - Half)..(Half + 1) :
+                            LET s == Half + off IN
+                              /\ s \in FS
+                              /\ LowS(s) <=> LowAt(off)
+                              /\ (IF LowS(s) THEN s ELSE Neg(s)) = Half + NegAt(off, LowAt(off))
+                              /\ LowS(IF LowS(s) THEN s ELSE Neg(s))
 EVerifyEq(z, r, s, D) == /\ r # 0 /\ s # 0 /\ D # 0
                          /\ LET w == Inv(s)
                                 P == Add(Mul(z, w), Mul(Mul(r, w), D))
